@@ -183,13 +183,13 @@ class HidWorld(World):
         H.random = FixedRandom(self.start_seq)
         cls = H.tridonic if self.driver_kind == "tridonic" else H.hasseb
         self.gateway = (TridonicGW if self.driver_kind == "tridonic" else HassebGW)(self, self.bus)
-        self.gateway.observe = list(self.foreign)
         self.driver = cls("/dev/dali/fake", reconnect_interval=1, reconnect_limit=self.reconnect_limit)
         self.driver.exceptions_on_send = self.exceptions_on_send
         self.driver.connection_status_callback.register(
             lambda drv, status: self.status_log.append((round(self.loop.time(), 6), status)))
         self.driver.bus_traffic.register(self._traffic(0))
         self.driver.connect()
+        self.gateway.observe = list(self.foreign)      # (opening the device resets the gateway model)
 
     def _traffic(self, k):
         def cb(drv, command, response, error):
